@@ -588,6 +588,117 @@ Proof.
   - apply (schema_check_no_crash v d r Hf Hb Hc H).
 Qed.
 
+(* ---------- integer keys, check by check ---------- *)
+Lemma fks_eqb_eq a : forall b, fks_eqb a b = true -> a = b.
+Proof.
+  induction a as [|x a IH]; intros [|y b] H; cbn in H; try discriminate; [reflexivity|].
+  apply andb_true_iff in H. destruct H as [H1 H2]. apply fk_eqb_eq in H1. rewrite H1, (IH b H2). reflexivity.
+Qed.
+
+Lemma fks_eqb_refl a : fks_eqb a a = true.
+Proof. induction a as [|x a IH]; cbn; [reflexivity|]. rewrite IH, (proj2 (fk_eqb_eq x x) eq_refl). reflexivity. Qed.
+
+Lemma outcome_eqb_eq a b : outcome_eqb a b = true -> a = b.
+Proof.
+  destruct a as [x|x], b as [y|y]; cbn; intros H; try discriminate.
+  - rewrite (fks_eqb_eq _ _ H). reflexivity.
+  - destruct x, y; try discriminate; reflexivity.
+Qed.
+
+Lemma outcome_eqb_refl a : outcome_eqb a a = true.
+Proof. destruct a as [x|x]; cbn; [apply fks_eqb_refl | destruct x; reflexivity]. Qed.
+
+(* the definition validate_response finds is the documented one, whatever the type of the keys *)
+Lemma def_agree_str d r :
+  no_wildcard_keys d = true -> flat_refs d = true ->
+  (lookup_str d (status r) = None /\ spec_def d r = None)
+  \/ (exists x b, lookup_str d (status r) = Some x
+                  /\ resolve_code d x = RBody b /\ spec_def d r = Some b /\ In (RInline b) (all_defs d)).
+Proof.
+  intros Hw Hf. unfold spec_def. rewrite (lookup_spec_str d _ Hw).
+  destruct (lookup_str d (status r)) as [x|] eqn:E; [right | left; auto].
+  destruct (resolve_agree d x Hf (lookup_str_in _ _ _ E)) as [b [H1 [H2 H3]]].
+  exists x, b. rewrite H2. auto.
+Qed.
+
+Lemma ct_str_agree d r : no_wildcard_keys d = true -> flat_refs d = true ->
+  content_type_check_str d r = spec_content_type_check d r.
+Proof.
+  intros Hw Hf. unfold content_type_check_str, spec_content_type_check. destruct (d_v30 d); [|reflexivity].
+  destruct (def_agree_str d r Hw Hf) as [[H1 H3]|[x [b [H1 [H3 [H4 _]]]]]].
+  - rewrite H1, H3. reflexivity.
+  - rewrite H1, H3, H4. reflexivity.
+Qed.
+
+Lemma hdr_str_agree hv d r : no_wildcard_keys d = true -> flat_refs d = true -> no_header_refs d = true ->
+  headers_check_str hv d r = spec_headers_check hv d r.
+Proof.
+  intros Hw Hf Hh. unfold headers_check_str, spec_headers_check.
+  destruct (def_agree_str d r Hw Hf) as [[H1 H3]|[x [b [H1 [H3 [H4 H5]]]]]].
+  - rewrite H1, H3. reflexivity.
+  - rewrite H1, H3, H4. unfold hdr_check_on. f_equal. f_equal.
+    pose proof (inline_ok _ d b Hh H5) as Hb. cbn in Hb. rewrite forallb_forall in Hb.
+    rewrite (existsb_ext_in (hdr_missing true r) (hdr_missing false r)); [reflexivity|].
+    intros h Hin. unfold hdr_missing. specialize (Hb h Hin). destruct (h_is_ref h); [discriminate | reflexivity].
+Qed.
+
+(* the body schema check agrees with the documentation for integer keys too: no hypothesis on the type of the keys *)
+Lemma schema_agree_any_keys v d r :
+  no_wildcard_keys d = true -> single_media_type d = true -> flat_refs d = true ->
+  body_decodes r = true -> ct_wellformed r = true -> ct_conforms d r = true ->
+  schema_check v d r = spec_schema_check v d r.
+Proof.
+  intros Hw Hs Hf Hb Hc Hconf. unfold schema_check, spec_schema_check.
+  destruct (def_agree_str d r Hw Hf) as [[H2 H3]|[x [b [H2 [H3 [H4 H5]]]]]].
+  - rewrite H2, H3. reflexivity.
+  - rewrite H2, H3, H4. rewrite strict_irrelevant by assumption.
+    destruct (d_v30 d) eqn:Ev; [|reflexivity].
+    apply media_agree.
+    + apply (inline_ok _ d b Hs H5).
+    + unfold ct_conforms, spec_content_type_check in Hconf. rewrite Ev, H4 in Hconf. exact Hconf.
+Qed.
+
+Lemma immaterial_of_no_int_keys hv d r : no_int_keys d = true -> int_keys_immaterial hv d r = true.
+Proof.
+  intros Hi. unfold int_keys_immaterial, content_type_check, content_type_check_str, headers_check, headers_check_str.
+  rewrite (lookup_raw_str d _ Hi), !outcome_eqb_refl. reflexivity.
+Qed.
+
+Lemma immaterial_split hv d r : int_keys_immaterial hv d r = true ->
+  content_type_check d r = content_type_check_str d r /\ headers_check hv d r = headers_check_str hv d r.
+Proof.
+  unfold int_keys_immaterial. intros H. apply andb_true_iff in H. destruct H as [H1 H2].
+  split; apply outcome_eqb_eq; assumption.
+Qed.
+
+(* the property with integer keys allowed: no_int_keys is replaced by the per-response predicate *)
+Lemma verdict_eq_spec_int_keys v hv d r :
+  no_wildcard_keys d = true -> single_media_type d = true -> int_keys_immaterial hv d r = true -> keys_parse d = true ->
+  flat_refs d = true -> no_header_refs d = true -> body_decodes r = true -> ct_wellformed r = true ->
+  ct_conforms d r = true ->
+  verdict v hv d r = spec_verdict v hv d r.
+Proof.
+  intros Hw Hs Hi Hk Hf Hh Hb Hc Hconf. unfold verdict, spec_verdict.
+  destruct (immaterial_split hv d r Hi) as [E1 E2].
+  rewrite (status_agree d r Hk), E1, E2, (ct_str_agree d r Hw Hf), (hdr_str_agree hv d r Hw Hf Hh),
+    (schema_agree_any_keys v d r Hw Hs Hf Hb Hc Hconf). reflexivity.
+Qed.
+
+Lemma fails_iff_spec_int_keys v hv d r :
+  no_wildcard_keys d = true -> single_media_type d = true -> int_keys_immaterial hv d r = true -> keys_parse d = true ->
+  flat_refs d = true -> no_header_refs d = true -> body_decodes r = true -> ct_wellformed r = true ->
+  (verdict v hv d r = [] <-> spec_verdict v hv d r = []).
+Proof.
+  intros Hw Hs Hi Hk Hf Hh Hb Hc.
+  destruct (ct_conforms d r) eqn:Hconf.
+  - rewrite (verdict_eq_spec_int_keys v hv d r) by assumption. tauto.
+  - destruct (spec_ct_nonconforming d r Hconf) as [k Hin].
+    destruct (immaterial_split hv d r Hi) as [E1 _].
+    unfold verdict, spec_verdict. rewrite E1, (ct_str_agree d r Hw Hf). rewrite !canon_nil.
+    split; intros H; exfalso; apply app_eq_nil in H; destruct H as [_ H]; apply app_eq_nil in H; destruct H as [H _];
+      rewrite H in Hin; destruct Hin.
+Qed.
+
 (* ---------- witnesses outside the regions ---------- *)
 Definition region_flags (d : doc) (r : response) : list bool :=
   [no_wildcard_keys d; single_media_type d; no_int_keys d; keys_parse d; flat_refs d; no_header_refs d; body_decodes r; ct_wellformed r].
@@ -633,6 +744,24 @@ Definition r_f3 := resp 200 (Some s_text_plain) (Json 0).
 Lemma refuted_int_key :
   region_flags d_f3 r_f3 = [true; true; false; true; true; true; true; true]
   /\ verdict none_valid hnone d_f3 r_f3 = [] /\ spec_verdict none_valid hnone d_f3 r_f3 = [FUndefinedCT].
+Proof. vm_compute. repeat split. Qed.
+
+(* the same integer-keyed document: the per-response predicate is false on the F3 witness, and true for a JSON
+   response, where the violating body IS reported (and conforming to 200 is not judged by default) *)
+Definition r_f3_json := resp 200 (Some s_app_json) (Json 0).
+Definition d_f3_default := doc30 [(KInt 200, RInline json_body);
+  (KStr s_default, RInline {| r_content := [(s_app_json, Some sch1)]; r_schema20 := None; r_headers := [] |})] [].
+Definition d_f3_20 : doc :=
+  {| d_v30 := false; d_responses := [(KInt 200, RInline {| r_content := []; r_schema20 := Some sch0; r_headers := [] |})];
+     d_components := []; d_produces_op := []; d_produces_global := [s_app_json] |}.
+Lemma int_key_body_examples :
+  int_keys_immaterial hnone d_f3 r_f3 = false
+  /\ no_int_keys d_f3 = false /\ int_keys_immaterial hnone d_f3 r_f3_json = true
+  /\ verdict none_valid hnone d_f3 r_f3_json = [FBodySchema] /\ spec_verdict none_valid hnone d_f3 r_f3_json = [FBodySchema]
+  /\ int_keys_immaterial hnone d_f3_default r_f3_json = true
+  /\ verdict (only_valid 0) hnone d_f3_default r_f3_json = [] /\ verdict (only_valid 1) hnone d_f3_default r_f3_json = [FBodySchema]
+  /\ int_keys_immaterial hnone d_f3_20 r_f3_json = true
+  /\ verdict none_valid hnone d_f3_20 r_f3_json = [FBodySchema] /\ spec_verdict none_valid hnone d_f3_20 r_f3_json = [FBodySchema].
 Proof. vm_compute. repeat split. Qed.
 
 (* F4 (fixed by e29caab0): a specification extension next to 200.  The sentinel (the code before the fix) raises,
